@@ -3,7 +3,7 @@ C09 — compressed input is decompressed completely and truncation is detected.
 
 Model: Osmium/Model/Decomp.lean (wrappers transcribed from gzip_compression.hpp, bzip2_compression.hpp,
 compression.hpp, read_thread.hpp; zlib / libbz2 as library oracles with written-down contracts).
-`Fixes.all` = the code as it is today (after /repo commits 20beb73, 0ac7ff4, d74b2ae), `Fixes.none` = the
+`Fixes.all` = the code as it is today (after /repo commits 20beb73, 0ac7ff4, d74b2ae, d0f1d5d), `Fixes.none` = the
 code before those commits.
 
 The five full-strength theorems — `decompress_complete`, `empty_chunk_only_at_end`, `truncation_detected`,
@@ -12,6 +12,14 @@ parametrised by the `Fixes`, so that the refutations for the code BEFORE the fix
 their concrete witnesses (DESIGN.md F11a–F11e and a sixth finding: the bzip2 buffer decompressor never
 noticed a truncated buffer) — these are the regression probes of the check; the `_partial` theorems state
 what held before the fixes.
+
+Damaged streams (`Stream.bad`: no header / data error; what the libraries report for them is part of the
+oracles' contracts): `CorruptionDetected` / `OkOnlyIfValid` — a file is accepted only if it is exactly a
+concatenation of complete valid streams, and then the bytes are the concatenation of their payloads — are
+REFUTED by today's code on one class (gzip from a file descriptor, magic of a member after the first damaged:
+zlib's gzread ignores the rest as trailing garbage; known finding) and proved on everything else
+(`corruption_detected_partial`, `ok_only_if_valid_partial`, `later_stream_bad_header_is_error` = the clause
+seed C09-6 breaks, for all inputs).
 -/
 import Osmium.Lemmas.Decomp
 import Osmium.Generated.Consts
@@ -22,8 +30,12 @@ open Osmium.Decomp
 
 /-! ## Domain -/
 
-/-- A compressed file: at least one stream, every stream has bytes, only the last one can be cut. -/
-def wfB (f : CFile α) : Bool := !f.isEmpty && truncOnlyLast f && f.all (fun s => decide (0 < s.csize))
+/-- A compressed file as the libraries see it: at least one stream, every stream has bytes, only the last one
+    can be cut or damaged (a library never looks beyond such a stream: whatever follows belongs to it), and a
+    stream is not both (a damaged stream whose damage the library does not reach before the input ends is a
+    cut stream). -/
+def wfB (f : CFile α) : Bool :=
+  !f.isEmpty && truncOnlyLast f && f.all (fun s => decide (0 < s.csize)) && f.all (fun s => !(s.trunc && s.bad != .none))
 
 def WF (f : CFile α) : Prop := wfB f = true
 
@@ -35,10 +47,57 @@ theorem WF.ne_nil {f : CFile α} (h : WF f) : f ≠ [] := by
   intro hf; simp [WF, wfB, hf] at h
 
 theorem WF.truncOnlyLast {f : CFile α} (h : WF f) : truncOnlyLast f = true := by
-  simp only [WF, wfB, Bool.and_eq_true] at h; exact h.1.2
+  simp only [WF, wfB, Bool.and_eq_true] at h; exact h.1.1.2
 
 theorem WF.pos {f : CFile α} (h : WF f) : ∀ s ∈ f, 0 < s.csize := by
-  simp only [WF, wfB, Bool.and_eq_true, List.all_eq_true, decide_eq_true_eq] at h; exact h.2
+  simp only [WF, wfB, Bool.and_eq_true, List.all_eq_true, decide_eq_true_eq] at h; exact h.1.2
+
+theorem WF.excl {f : CFile α} (h : WF f) : ∀ s ∈ f, s.trunc = true → s.bad = .none := by
+  simp only [WF, wfB, Bool.and_eq_true, List.all_eq_true] at h
+  intro s hs ht
+  have := h.2 s hs
+  simpa [ht] using this
+
+/-- The part of the domain that is about `gzread` (GzipDecompressor, fd): no stream AFTER THE FIRST lacks the
+    gzip magic (zlib ignores such a stream and everything after it as trailing garbage without telling anybody:
+    see `ok_only_if_valid_refuted_gzip_fd_later_magic`), and a first stream without the magic has bytes
+    (`payload` of such a stream = its raw bytes, which gzread copies; `0 < csize`). -/
+def gzFdDomain : CFile α → Bool
+  | [] => true
+  | s :: t => noMagic t && (s.bad != .magic || !s.payload.isEmpty)
+
+theorem noMagic_of_intact {f : CFile α} (h : faulty f = false) : noMagic f = true := by
+  simp only [faulty, List.any_eq_false, noMagic, List.all_eq_true] at *
+  intro s hs
+  have := h s hs
+  simp only [Bool.or_eq_true, not_or, Bool.not_eq_true, bne_eq_false_iff_eq] at this
+  simp [this.2]
+
+theorem noMagic_of_hasTrunc : ∀ {f : CFile α}, truncOnlyLast f = true → (∀ s ∈ f, s.trunc = true → s.bad = .none) →
+    hasTrunc f = true → noMagic f = true := by
+  intro f
+  induction f with
+  | nil => intro _ _ h; simp [hasTrunc] at h
+  | cons s t ih =>
+    intro hw hx ht
+    cases t with
+    | nil =>
+      have hst : s.trunc = true := by simpa [hasTrunc] using ht
+      simp [noMagic, hx s (by simp) hst]
+    | cons a t =>
+      simp only [truncOnlyLast, Bool.and_eq_true, Bool.not_eq_true', beq_iff_eq] at hw
+      have ht' : hasTrunc (a :: t) = true := by simpa [hasTrunc, hw.1.1] using ht
+      have := ih hw.2 (fun x hx' => hx x (by simp [hx'])) ht'
+      simp only [noMagic, List.all_cons, Bool.and_eq_true] at this ⊢
+      exact ⟨by simp [hw.1.2], this⟩
+
+theorem gzFdDomain_of_noMagic {f : CFile α} (h : noMagic f = true) : gzFdDomain f = true := by
+  cases f with
+  | nil => rfl
+  | cons s t =>
+    simp only [noMagic, List.all_cons, Bool.and_eq_true] at h
+    simp only [gzFdDomain, Bool.and_eq_true, Bool.or_eq_true]
+    exact ⟨h.2, Or.inl h.1⟩
 
 theorem RunOk.weaken {r : Run α} {rem : List α} {bad : Bool} {a b : Nat} (h : RunOk r rem bad a) (hab : a ≤ b) :
     RunOk r rem bad b :=
@@ -64,16 +123,86 @@ theorem run_none (cfg : Cfg) (hc : CfgOk cfg) (fx : Fixes) (m : Mode) (f : CFile
         { buffer := refPayload f, size := (refPayload f).length } (Or.inr ⟨rfl, h, rfl, rfl⟩) (by simp [h]; exact fuelFor_gt f)
       simpa [readFile, h] using this
 
-/-- gzip from a file descriptor: every file, today's code (the `Fixes` do not touch it) -/
-theorem run_gzip_fd (cfg : Cfg) (hc : CfgOk cfg) (fx : Fixes) (f : CFile α) :
-    RunOk (readFile cfg fx .gzip .fd f) (refPayload f) (hasTrunc f) (fileSize f) := by
-  have := run_spec (gzFd_step cfg hc.1 (fileSize f)) (fuelFor f) (gzOpen f)
-    ⟨rfl, by simp [gzOpen], by simp [gzOpen]⟩ (by simp [gzOpen]; exact fuelFor_gt f)
-  simpa [readFile, gzOpen, intact_iff_hasTrunc] using this
+theorem gzScan_len : ∀ (b : Bool) (f : CFile α), (gzScan b f).1.length ≤ (refPayload f).length := by
+  intro b f
+  induction f generalizing b with
+  | nil => simp [gzScan]
+  | cons s t ih =>
+    simp only [gzScan, refPayload_cons, List.length_append]
+    cases s.bad
+    · have := ih false; simp only [List.length_append]; omega
+    · simp
+    · cases b <;> simp
+
+/-- gzip from a file descriptor, ANY file and any `Fixes`: what gzread hands out (`gzScan`), an error exactly
+    when `gzBad` -/
+theorem run_gzip_fd_raw (cfg : Cfg) (hc : CfgOk cfg) (fx : Fixes) (f : CFile α) :
+    RunOk (readFile cfg fx .gzip .fd f) (gzScan true f).1 (gzBad fx (gzOpen f)) (fileSize f) := by
+  have := run_spec (gzFd_step cfg hc.1 fx (fileSize f)) (fuelFor f) (gzOpen f)
+    ⟨rfl, by simp [gzOpen], by simp [gzOpen]⟩
+    (by simp only [gzOpen]; exact Nat.lt_of_le_of_lt (gzScan_len true f) (fuelFor_gt f))
+  simpa [readFile, gzOpen] using this
+
+/-- gzip from a file descriptor: every file whose streams all have their magic, any `Fixes` -/
+theorem run_gzip_fd (cfg : Cfg) (hc : CfgOk cfg) (fx : Fixes) (f : CFile α) (hw : truncOnlyLast f = true) (hm : noMagic f = true) :
+    RunOk (readFile cfg fx .gzip .fd f) (refPayload f) (faulty f) (fileSize f) := by
+  have h := run_gzip_fd_raw cfg hc fx f
+  obtain ⟨i1, i2⟩ := gzScan_noMagic true f hm hw
+  have hd : (gzOpen f).direct = true → (gzOpen f).pending.isEmpty = true := by
+    cases f with
+    | nil => intro _; simp [gzOpen, gzScan]
+    | cons s t =>
+      intro hdir
+      simp only [noMagic, List.all_cons, Bool.and_eq_true, bne_iff_ne] at hm
+      simp only [gzOpen, beq_iff_eq] at hdir
+      exact absurd hdir hm.1
+  have hb : gzBad fx (gzOpen f) = faulty f := by
+    rw [← i2]
+    simp only [gzBad]
+    cases hdir : (gzOpen f).direct
+    · simp [gzOpen]
+    · have := hd hdir
+      simp only [gzOpen] at this
+      simp [gzOpen, this]
+  rw [hb, i1] at h
+  exact h
+
+/-- the repaired GzipDecompressor on a file that does not start with the gzip magic: gzread copies the raw
+    bytes (`payload`), `gzdirect()` is true after the first read: error -/
+theorem run_gzip_fd_first_magic (cfg : Cfg) (hc : CfgOk cfg) (fx : Fixes) (hfx : fx.gzDirect = true) (s : Stream α)
+    (hb : s.bad = .magic) (hp : s.payload.isEmpty = false) :
+    RunOk (readFile cfg fx .gzip .fd [s]) s.payload true (fileSize [s]) := by
+  have h := run_gzip_fd_raw cfg hc fx [s]
+  have h1 : (gzScan true [s]).1 = s.payload := by simp [gzScan, hb]
+  have h2 : gzBad fx (gzOpen [s]) = true := by simp [gzBad, gzOpen, gzScan, hb, hfx, hp]
+  rw [h1, h2] at h
+  exact h
+
+/-- today's GzipDecompressor on every file of its domain -/
+theorem run_gzip_fd_fixed (cfg : Cfg) (hc : CfgOk cfg) (f : CFile α) (hw : truncOnlyLast f = true) (hd : gzFdDomain f = true) :
+    RunOk (readFile cfg Fixes.all .gzip .fd f) (refPayload f) (faulty f) (fileSize f) := by
+  cases f with
+  | nil => exact run_gzip_fd cfg hc Fixes.all [] rfl rfl
+  | cons s t =>
+    simp only [gzFdDomain, Bool.and_eq_true, Bool.or_eq_true, bne_iff_ne, Bool.not_eq_true'] at hd
+    by_cases hb : s.bad = .magic
+    · have ht : t = [] := truncOnlyLast_head_bad hw (by simp [hb])
+      subst ht
+      have hp : s.payload.isEmpty = false := by
+        rcases hd.2 with h | h
+        · exact absurd hb h
+        · exact h
+      have := run_gzip_fd_first_magic cfg hc Fixes.all rfl s hb hp
+      have e1 : refPayload [s] = s.payload := by simp [refPayload]
+      have e2 : faulty [s] = true := by simp [faulty, hb]
+      rw [e1, e2]; exact this
+    · refine run_gzip_fd cfg hc Fixes.all (s :: t) hw ?_
+      simp only [noMagic, List.all_cons, Bool.and_eq_true, bne_iff_ne]
+      exact ⟨hb, hd.1⟩
 
 /-- the repaired buffer decompressors: every well-formed file -/
 theorem run_buffer_fixed (cfg : Cfg) (hc : CfgOk cfg) (k : Kind) (f : CFile α) (hwf : WF f) :
-    RunOk (run (bufDec cfg Fixes.all k f.length) (fuelFor f) { z := zOpen f }) (refPayload f) (hasTrunc f) 0 := by
+    RunOk (run (bufDec cfg Fixes.all k f.length) (fuelFor f) { z := zOpen f }) (refPayload f) (faulty f) 0 := by
   cases f with
   | nil => exact absurd rfl hwf.ne_nil
   | cons s t =>
@@ -84,10 +213,11 @@ theorem run_buffer_fixed (cfg : Cfg) (hc : CfgOk cfg) (k : Kind) (f : CFile α) 
     simpa [bufRem, bufBad, zOpen_cons_rem, zOpen_cons_bad] using this
 
 /-- today's buffer decompressors: exactly the first stream, whatever follows it -/
-theorem run_buffer_current (cfg : Cfg) (hc : CfgOk cfg) (k : Kind) (s : Stream α) (t : CFile α) (hs : s.trunc = false) :
+theorem run_buffer_current (cfg : Cfg) (hc : CfgOk cfg) (k : Kind) (s : Stream α) (t : CFile α) (hs : s.trunc = false)
+    (hb : s.bad = .none) :
     RunOk (run (bufDec cfg Fixes.none k (s :: t).length) (fuelFor (s :: t)) { z := zOpen (s :: t) }) s.payload false 0 := by
   have := run_spec (bufDec_current_step cfg k Fixes.none rfl rfl hc.2.1 (s :: t).length) (fuelFor (s :: t))
-    ({ z := zOpen (s :: t), live := true } : BufDec α) (by intro _; simp [zOpen, hs])
+    ({ z := zOpen (s :: t), live := true } : BufDec α) (by intro _; simp [zOpen, hs, hb])
     (by simp only [bufRem0, zOpen, if_true]
         have := fuelFor_gt (s :: t); rw [refPayload_cons, List.length_append] at this; omega)
   simpa [bufRem0, zOpen] using this
@@ -96,15 +226,22 @@ theorem bzOpen_inv (fx : Fixes) (s : Stream α) (t : CFile α) (hwf : WF (s :: t
     BzDecInv fx (fileSize (s :: t)) (s :: t).length ({ lib := bzOpen (s :: t) } : BzDec α) := by
   refine ⟨rfl, by simp [bzOpen, bzOpenAt], by simp, ?_⟩
   intro _
-  refine ⟨by simp [bzOpen, bzOpenAt], by simp [bzOpen, bzOpenAt, fileSize_cons], ?_, truncOnlyLast_tail hwf.truncOnlyLast, ?_, by simp [bzOpen, bzOpenAt], ?_⟩
-  · intro ht; exact truncOnlyLast_head hwf.truncOnlyLast (by simpa [bzOpen, bzOpenAt] using ht)
+  refine ⟨by simp [bzOpen, bzOpenAt], by simp [bzOpen, bzOpenAt, fileSize_cons], ?_, truncOnlyLast_tail hwf.truncOnlyLast, ?_, by simp [bzOpen, bzOpenAt], ?_, ?_⟩
+  · intro ht
+    simp only [bzOpen, bzOpenAt, Bool.or_eq_true, bne_iff_ne] at ht
+    rcases ht with ht | ht
+    · exact truncOnlyLast_head hwf.truncOnlyLast ht
+    · exact truncOnlyLast_head_bad hwf.truncOnlyLast ht
   · intro r hr; exact hwf.pos r (by simp only [bzOpen, bzOpenAt] at hr; simp [hr])
   · simpa [bzOpen, bzOpenAt] using h
+  · intro ht
+    simp only [bzOpen, bzOpenAt, Bool.or_eq_false_iff] at ht
+    simpa [bzOpen, bzOpenAt] using ht.2
 
 /-- bzip2 from a file descriptor: the repaired code on every well-formed file; today's code on single-stream files -/
 theorem run_bzip2_fd (cfg : Cfg) (hc : CfgOk cfg) (fx : Fixes) (f : CFile α) (hwf : WF f)
     (h : fx.bzUnused = true ∨ f.length = 1) :
-    RunOk (readFile cfg fx .bzip2 .fd f) (refPayload f) (hasTrunc f) (fileSize f) := by
+    RunOk (readFile cfg fx .bzip2 .fd f) (refPayload f) (faulty f) (fileSize f) := by
   cases f with
   | nil => exact absurd rfl hwf.ne_nil
   | cons s t =>
@@ -115,19 +252,32 @@ theorem run_bzip2_fd (cfg : Cfg) (hc : CfgOk cfg) (fx : Fixes) (f : CFile α) (h
     have := run_spec (bzFdDec_step cfg hc.2.2 hc.1 fx (fileSize (s :: t)) (s :: t).length) (fuelFor (s :: t))
       ({ lib := bzOpen (s :: t) } : BzDec α) (bzOpen_inv fx s t hwf h')
       (by simp only [bzRem, bzOpen, bzOpenAt]; simp; have := fuelFor_gt (s :: t); rw [refPayload_cons, List.length_append] at this; omega)
-    simpa [readFile, bzRem, bzBad, bzOpen, bzOpenAt, refPayload_cons, hasTrunc] using this
+    simpa [readFile, bzRem, bzBad, bzOpen, bzOpenAt, refPayload_cons, faulty] using this
 
-/-- Everything at once for today's code. -/
-theorem run_fixed (cfg : Cfg) (hc : CfgOk cfg) (c : Comp) (m : Mode) (f : CFile α) (hwf : WF f) :
-    RunOk (readFile cfg Fixes.all c m f) (refPayload f) (if c = .none then false else hasTrunc f) (inputSize c f) := by
+/-- Everything at once for today's code (gzip from a file descriptor: on `gzFdDomain`). -/
+theorem run_fixed (cfg : Cfg) (hc : CfgOk cfg) (c : Comp) (m : Mode) (f : CFile α) (hwf : WF f)
+    (hd : c = .gzip → m = .fd → gzFdDomain f = true) :
+    RunOk (readFile cfg Fixes.all c m f) (refPayload f) (if c = .none then false else faulty f) (inputSize c f) := by
   cases c
   · simpa [inputSize] using run_none cfg hc Fixes.all m f
   · cases m
-    · simpa [inputSize] using run_gzip_fd cfg hc Fixes.all f
+    · simpa [inputSize] using run_gzip_fd_fixed cfg hc f hwf.truncOnlyLast (hd rfl rfl)
     · simpa [inputSize, readFile] using RunOk.weaken (run_buffer_fixed cfg hc .gzip f hwf) (Nat.zero_le _)
   · cases m
     · simpa [inputSize] using run_bzip2_fd cfg hc Fixes.all f hwf (Or.inl rfl)
     · simpa [inputSize, readFile] using RunOk.weaken (run_buffer_fixed cfg hc .bzip2 f hwf) (Nat.zero_le _)
+
+theorem truncOnlyLast_of_intact : ∀ {f : CFile α}, faulty f = false → truncOnlyLast f = true := by
+  intro f
+  induction f with
+  | nil => intro _; rfl
+  | cons s t ih =>
+    intro h
+    rw [faulty_cons] at h
+    simp only [Bool.or_eq_false_iff, bne_eq_false_iff_eq] at h
+    cases t with
+    | nil => rfl
+    | cons a t => simp [truncOnlyLast, h.1.1, h.1.2, ih h.2]
 
 theorem result_of_good {r : Run α} {p : List α} (h : r.err = none ∧ r.chunks.flatten = p) : r.result = .ok p := by
   simp [Run.result, h.1, h.2]
@@ -143,19 +293,19 @@ def DecompressComplete (fx : Fixes) : Prop :=
 
 theorem decompress_complete : DecompressComplete Fixes.all := by
   intro α cfg c m f hc hwf hi
-  have hb : hasTrunc f = false := by rw [intact_iff_hasTrunc] at hi; simpa using hi
-  have := (run_fixed cfg hc c m f hwf).good (by split <;> simp [hb])
+  have hb : faulty f = false := by rw [intact_iff_faulty] at hi; simpa using hi
+  have := (run_fixed cfg hc c m f hwf (fun _ _ => gzFdDomain_of_noMagic (noMagic_of_intact hb))).good (by split <;> simp [hb])
   exact result_of_good this
 
 /-- non-vacuity: a three-stream file with an empty middle stream -/
-example : CfgOk { ibs := 4 } ∧ WF ([⟨30, [1, 2, 3, 4, 5], false, false⟩, ⟨14, [], false, false⟩, ⟨40, [6], false, false⟩] : CFile Nat) :=
+example : CfgOk { ibs := 4 } ∧ WF ([⟨30, [1, 2, 3, 4, 5], false, false, .none⟩, ⟨14, [], false, false, .none⟩, ⟨40, [6], false, false, .none⟩] : CFile Nat) :=
   ⟨by simp [CfgOk], by decide⟩
 
 def cfg64 : Cfg := { ibs := 64 }
 theorem cfg64_ok : CfgOk cfg64 := by simp [CfgOk, cfg64]
 
 /-- Regression witnesses (code before the fixes).  F11a (gzip): two members in a memory buffer, the second is dropped. -/
-def wA : CFile Nat := [⟨22, [1, 2], false, false⟩, ⟨21, [3], false, false⟩]
+def wA : CFile Nat := [⟨22, [1, 2], false, false, .none⟩, ⟨21, [3], false, false, .none⟩]
 theorem witness_gzip_buffer : readFile cfg64 Fixes.none .gzip .buf wA = { chunks := [[1, 2]], err := none, offs := [0, 0] } := by decide
 theorem decompress_complete_refuted_gzip_buffer : ¬ DecompressComplete Fixes.none := by
   intro h
@@ -172,7 +322,7 @@ theorem decompress_complete_refuted_bzip2_buffer :
 
 /-- F11b: bzip2 from a file descriptor, the second stream is already in the 5000-byte read-ahead
     (the fread came back short: feof) — dropped. -/
-def wB : CFile Nat := [⟨40, [1, 2], false, false⟩, ⟨39, [3], false, false⟩]
+def wB : CFile Nat := [⟨40, [1, 2], false, false, .none⟩, ⟨39, [3], false, false, .none⟩]
 theorem witness_bzip2_fd_tail : readFile cfg64 Fixes.none .bzip2 .fd wB = { chunks := [[1, 2]], err := none, offs := [79, 79] } := by decide
 theorem decompress_complete_refuted_bzip2_fd_tail :
     readAll cfg64 Fixes.none .bzip2 .fd wB ≠ .ok (refPayload wB) := by
@@ -181,7 +331,7 @@ theorem decompress_complete_refuted_bzip2_fd_tail :
 
 /-- F11c: the first stream ends exactly at the read-ahead boundary: num_unused = 0 — the rest (6500 bytes,
     not in the read-ahead) is dropped. -/
-def wC : CFile Nat := [⟨5000, [1, 2], false, false⟩, ⟨6500, [3], false, false⟩]
+def wC : CFile Nat := [⟨5000, [1, 2], false, false, .none⟩, ⟨6500, [3], false, false, .none⟩]
 theorem witness_bzip2_fd_boundary : readFile cfg64 Fixes.none .bzip2 .fd wC = { chunks := [[1, 2]], err := none, offs := [5000, 5000] } := by decide
 theorem decompress_complete_refuted_bzip2_fd_boundary :
     readAll cfg64 Fixes.none .bzip2 .fd wC ≠ .ok (refPayload wC) := by
@@ -189,7 +339,7 @@ theorem decompress_complete_refuted_bzip2_fd_boundary :
   simp [Run.result, wC, refPayload]
 
 /-- F11d: an empty first stream, a long second one: read() returns an empty chunk in the middle of the file. -/
-def wD : CFile Nat := [⟨14, [], false, false⟩, ⟨6500, [3], false, false⟩]
+def wD : CFile Nat := [⟨14, [], false, false, .none⟩, ⟨6500, [3], false, false, .none⟩]
 theorem witness_bzip2_fd_empty_chunk : readFile cfg64 Fixes.none .bzip2 .fd wD = { chunks := [], err := none, offs := [5000] } := by decide
 theorem decompress_complete_refuted_bzip2_fd_empty_chunk :
     readAll cfg64 Fixes.none .bzip2 .fd wD ≠ .ok (refPayload wD) := by
@@ -198,7 +348,7 @@ theorem decompress_complete_refuted_bzip2_fd_empty_chunk :
 
 /-- F11d, second form: payload = input_buffer_size and the stream trailer straddles the read-ahead boundary:
     BZ_OK with a full buffer, then BZ_STREAM_END with 0 bytes. -/
-def wD2 : CFile Nat := [⟨5004, [1, 2], false, false⟩, ⟨6500, [3], false, false⟩]
+def wD2 : CFile Nat := [⟨5004, [1, 2], false, false, .none⟩, ⟨6500, [3], false, false, .none⟩]
 theorem witness_bzip2_fd_empty_chunk2 :
     readFile { ibs := 2 } Fixes.none .bzip2 .fd wD2 = { chunks := [[1, 2]], err := none, offs := [5000, 10000] } := by decide
 
@@ -212,35 +362,35 @@ theorem witnesses_fixed :
 /-- What held before the fixes (1): the buffer decompressors deliver exactly the first stream — complete for
     single-stream buffers, and EVERY byte after the first stream is lost, whatever the sizes. -/
 theorem decompress_buffer_first_stream_only_partial (cfg : Cfg) (hc : CfgOk cfg) (k : Kind) (s : Stream α) (t : CFile α)
-    (hs : s.trunc = false) :
+    (hs : s.trunc = false) (hb : s.bad = .none) :
     readAll cfg Fixes.none (match k with | .gzip => .gzip | .bzip2 => .bzip2) .buf (s :: t) = .ok s.payload := by
-  have := (run_buffer_current cfg hc k s t hs).good rfl
+  have := (run_buffer_current cfg hc k s t hs hb).good rfl
   cases k <;> exact result_of_good (by simpa [readFile] using this)
 
 /-- What held before the fixes (2): single-stream files, both libraries, fd and buffer. -/
 theorem decompress_complete_single_stream_partial (cfg : Cfg) (hc : CfgOk cfg) (c : Comp) (m : Mode) (s : Stream α)
-    (hs : s.trunc = false) (hpos : 0 < s.csize) :
+    (hs : s.trunc = false) (hbn : s.bad = .none) (hpos : 0 < s.csize) :
     readAll cfg Fixes.none c m [s] = .ok s.payload := by
-  have hwf : WF [s] := by simp [WF, wfB, truncOnlyLast, hpos]
-  have hb : hasTrunc [s] = false := by simp [hasTrunc, hs]
+  have hwf : WF [s] := by simp [WF, wfB, truncOnlyLast, hpos, hs]
+  have hb : faulty [s] = false := by simp [faulty, hs, hbn]
   have hp : refPayload [s] = s.payload := by simp [refPayload]
   cases c
   · have := (run_none cfg hc Fixes.none m [s]).good rfl
     rw [hp] at this; exact result_of_good this
   · cases m
-    · have := (run_gzip_fd cfg hc Fixes.none [s]).good hb
+    · have := (run_gzip_fd cfg hc Fixes.none [s] rfl (by simp [noMagic, hbn])).good hb
       rw [hp] at this; exact result_of_good this
-    · exact decompress_buffer_first_stream_only_partial cfg hc .gzip s [] hs
+    · exact decompress_buffer_first_stream_only_partial cfg hc .gzip s [] hs hbn
   · cases m
     · have := (run_bzip2_fd cfg hc Fixes.none [s] hwf (Or.inr rfl)).good hb
       rw [hp] at this; exact result_of_good this
-    · exact decompress_buffer_first_stream_only_partial cfg hc .bzip2 s [] hs
+    · exact decompress_buffer_first_stream_only_partial cfg hc .bzip2 s [] hs hbn
 
 /-- Holds for any `Fixes` (3): gzip from a file descriptor, any number of members (gzread is multi-member aware). -/
 theorem decompress_complete_gzip_fd_partial (cfg : Cfg) (hc : CfgOk cfg) (fx : Fixes) (f : CFile α) (hi : intact f = true) :
     readAll cfg fx .gzip .fd f = .ok (refPayload f) := by
-  have hb : hasTrunc f = false := by rw [intact_iff_hasTrunc] at hi; simpa using hi
-  exact result_of_good ((run_gzip_fd cfg hc fx f).good hb)
+  have hb : faulty f = false := by rw [intact_iff_faulty] at hi; simpa using hi
+  exact result_of_good ((run_gzip_fd cfg hc fx f (truncOnlyLast_of_intact hb) (noMagic_of_intact hb)).good hb)
 
 /-- Holds for any `Fixes` (4): uncompressed input. -/
 theorem decompress_complete_none_partial (cfg : Cfg) (hc : CfgOk cfg) (fx : Fixes) (m : Mode) (f : CFile α) :
@@ -277,8 +427,8 @@ def EmptyChunkOnlyAtEnd (fx : Fixes) : Prop :=
 
 theorem empty_chunk_only_at_end : EmptyChunkOnlyAtEnd Fixes.all := by
   intro α cfg c m f hc hwf hi _
-  have hb : hasTrunc f = false := by rw [intact_iff_hasTrunc] at hi; simpa using hi
-  exact ((run_fixed cfg hc c m f hwf).good (by split <;> simp [hb])).2
+  have hb : faulty f = false := by rw [intact_iff_faulty] at hi; simpa using hi
+  exact ((run_fixed cfg hc c m f hwf (fun _ _ => gzFdDomain_of_noMagic (noMagic_of_intact hb))).good (by split <;> simp [hb])).2
 
 /-- F11d: before fix d74b2ae an empty chunk was produced before the end. -/
 theorem empty_chunk_only_at_end_refuted : ¬ EmptyChunkOnlyAtEnd Fixes.none := by
@@ -299,16 +449,17 @@ def TruncationDetected (fx : Fixes) : Prop :=
 
 theorem truncation_detected : TruncationDetected Fixes.all := by
   intro α cfg c m f hc hwf hcn ht
-  obtain ⟨e, he, hf⟩ := (run_fixed cfg hc c m f hwf).bad (by simp [hcn, ht])
+  have hd := gzFdDomain_of_noMagic (noMagic_of_hasTrunc hwf.truncOnlyLast hwf.excl ht)
+  obtain ⟨e, he, hf⟩ := (run_fixed cfg hc c m f hwf (fun _ _ => hd)).bad (by simp [hcn, faulty_of_hasTrunc ht])
   exact ⟨e, by simp [readAll, Run.result, he], hf⟩
 
 /-- non-vacuity -/
-example : WF ([⟨30, [1, 2], false, false⟩, ⟨7, [], true, false⟩] : CFile Nat) ∧
-    hasTrunc ([⟨30, [1, 2], false, false⟩, ⟨7, [], true, false⟩] : CFile Nat) = true := ⟨by decide, by decide⟩
+example : WF ([⟨30, [1, 2], false, false, .none⟩, ⟨7, [], true, false, .none⟩] : CFile Nat) ∧
+    hasTrunc ([⟨30, [1, 2], false, false, .none⟩, ⟨7, [], true, false, .none⟩] : CFile Nat) = true := ⟨by decide, by decide⟩
 
 /-- F11e: a gzip buffer cut inside the header (5 of 20+ bytes): inflate consumes the bytes, produces nothing,
     returns Z_OK — accepted as an empty file. -/
-def wE : CFile Nat := [⟨5, [], true, false⟩]
+def wE : CFile Nat := [⟨5, [], true, false, .none⟩]
 theorem witness_gzip_buffer_truncated : readFile cfg64 Fixes.none .gzip .buf wE = { chunks := [], err := none, offs := [0] } := by decide
 theorem truncation_detected_refuted_gzip_buffer : ¬ TruncationDetected Fixes.none := by
   intro h
@@ -317,12 +468,12 @@ theorem truncation_detected_refuted_gzip_buffer : ¬ TruncationDetected Fixes.no
   simp [Run.result] at he
 
 /-- new: a bzip2 buffer cut anywhere (here after one complete 3-byte... decodable prefix) is accepted. -/
-def wF : CFile Nat := [⟨30, [1, 2, 3], true, false⟩]
+def wF : CFile Nat := [⟨30, [1, 2, 3], true, false, .none⟩]
 theorem witness_bzip2_buffer_truncated :
     readFile cfg64 Fixes.none .bzip2 .buf wF = { chunks := [[1, 2, 3]], err := none, offs := [0, 0] } := by decide
 
 /-- consequence of F11b: a cut second stream is not noticed either -/
-def wG : CFile Nat := [⟨40, [1, 2], false, false⟩, ⟨9, [], true, false⟩]
+def wG : CFile Nat := [⟨40, [1, 2], false, false, .none⟩, ⟨9, [], true, false, .none⟩]
 theorem witness_bzip2_fd_truncated_second : readFile cfg64 Fixes.none .bzip2 .fd wG = { chunks := [[1, 2]], err := none, offs := [49, 49] } := by decide
 
 /-- the same files under today's code: errors -/
@@ -334,32 +485,150 @@ theorem witnesses_truncated_fixed :
 
 /-- What held before the fixes: gzip from a file descriptor (error from gzclose_r), and single-stream bzip2 from a file
     descriptor (BZ_UNEXPECTED_EOF). -/
-theorem truncation_detected_gzip_fd_partial (cfg : Cfg) (hc : CfgOk cfg) (fx : Fixes) (f : CFile α) (ht : hasTrunc f = true) :
+theorem truncation_detected_gzip_fd_partial (cfg : Cfg) (hc : CfgOk cfg) (fx : Fixes) (f : CFile α) (hwf : WF f)
+    (ht : hasTrunc f = true) :
     ∃ e, readAll cfg fx .gzip .fd f = .error e ∧ e.cls ≠ .fuel := by
-  obtain ⟨e, he, hf⟩ := (run_gzip_fd cfg hc fx f).bad ht
+  obtain ⟨e, he, hf⟩ := (run_gzip_fd cfg hc fx f hwf.truncOnlyLast (noMagic_of_hasTrunc hwf.truncOnlyLast hwf.excl ht)).bad
+    (faulty_of_hasTrunc ht)
   exact ⟨e, by simp [readAll, Run.result, he], hf⟩
 
 theorem truncation_detected_bzip2_fd_single_partial (cfg : Cfg) (hc : CfgOk cfg) (s : Stream α) (hpos : 0 < s.csize)
-    (ht : s.trunc = true) :
+    (ht : s.trunc = true) (hbn : s.bad = .none) :
     ∃ e, readAll cfg Fixes.none .bzip2 .fd [s] = .error e ∧ e.cls ≠ .fuel := by
-  have hwf : WF [s] := by simp [WF, wfB, truncOnlyLast, hpos]
-  obtain ⟨e, he, hf⟩ := (run_bzip2_fd cfg hc Fixes.none [s] hwf (Or.inr rfl)).bad (by simp [hasTrunc, ht])
+  have hwf : WF [s] := by simp [WF, wfB, truncOnlyLast, hpos, hbn]
+  obtain ⟨e, he, hf⟩ := (run_bzip2_fd cfg hc Fixes.none [s] hwf (Or.inr rfl)).bad (by simp [faulty, ht])
   exact ⟨e, by simp [readAll, Run.result, he], hf⟩
+
+/-! ## corruption_detected / ok_only_if_valid -/
+
+/-- Full statement: a file in which some stream is cut OR DAMAGED (a header — of the first stream or of any
+    later one —, the body, the trailer; trailing bytes after the last stream that are not a complete valid
+    stream) is reported as an error. -/
+def CorruptionDetected (fx : Fixes) : Prop :=
+  ∀ (α : Type) (cfg : Cfg) (c : Comp) (m : Mode) (f : CFile α), CfgOk cfg → WF f → c ≠ .none → faulty f = true →
+    ∃ e, readAll cfg fx c m f = .error e ∧ e.cls ≠ .fuel
+
+/-- The same from the reader's side: a file is accepted ONLY IF it is exactly a concatenation of complete valid
+    streams, and then the bytes delivered are the concatenation of their payloads — never a shorter file. -/
+def OkOnlyIfValid (fx : Fixes) : Prop :=
+  ∀ (α : Type) (cfg : Cfg) (c : Comp) (m : Mode) (f : CFile α), CfgOk cfg → WF f → c ≠ .none →
+    ∀ out, readAll cfg fx c m f = .ok out → faulty f = false ∧ out = refPayload f
+
+/-- REFUTED by today's code for gzip from a file descriptor: a member AFTER THE FIRST whose magic bytes are
+    damaged is "trailing garbage" for zlib's gzread — the file is accepted, the members from the damaged one
+    on are dropped (finding `corruption-accepted:gzip-fd:magic-of-later-member`). -/
+def wM : CFile Nat := [⟨30, [1, 2], false, false, .none⟩, ⟨25, [], false, false, .magic⟩]
+theorem witness_gzip_fd_later_magic : readAll cfg64 Fixes.all .gzip .fd wM = .ok [1, 2] := by rfl
+theorem ok_only_if_valid_refuted_gzip_fd_later_magic : ¬ OkOnlyIfValid Fixes.all := by
+  intro h
+  have := (h Nat cfg64 .gzip .fd wM cfg64_ok (by decide) (by decide) [1, 2] witness_gzip_fd_later_magic).1
+  revert this; decide
+theorem corruption_detected_refuted_gzip_fd_later_magic : ¬ CorruptionDetected Fixes.all := by
+  intro h
+  obtain ⟨e, he, _⟩ := h Nat cfg64 .gzip .fd wM cfg64_ok (by decide) (by decide) (by decide)
+  rw [witness_gzip_fd_later_magic] at he; cases he
+
+/-- Everything else holds: gzip and bzip2, file descriptor and memory buffer, every file — for gzip from a file
+    descriptor the files of `gzFdDomain` (no member after the first lacks the magic). -/
+theorem corruption_detected_partial (cfg : Cfg) (hc : CfgOk cfg) (c : Comp) (m : Mode) (f : CFile α) (hwf : WF f)
+    (hcn : c ≠ .none) (hd : c = .gzip → m = .fd → gzFdDomain f = true) (hf : faulty f = true) :
+    ∃ e, readAll cfg Fixes.all c m f = .error e ∧ e.cls ≠ .fuel := by
+  obtain ⟨e, he, hfu⟩ := (run_fixed cfg hc c m f hwf hd).bad (by simp [hcn, hf])
+  exact ⟨e, by simp [readAll, Run.result, he], hfu⟩
+
+theorem ok_only_if_valid_partial (cfg : Cfg) (hc : CfgOk cfg) (c : Comp) (m : Mode) (f : CFile α) (hwf : WF f)
+    (hcn : c ≠ .none) (hd : c = .gzip → m = .fd → gzFdDomain f = true) (out : List α)
+    (hok : readAll cfg Fixes.all c m f = .ok out) :
+    faulty f = false ∧ out = refPayload f := by
+  cases hf : faulty f
+  · have := result_of_good ((run_fixed cfg hc c m f hwf hd).good (by simp [hcn, hf]))
+    unfold readAll at hok
+    rw [this] at hok
+    exact ⟨rfl, by cases hok; rfl⟩
+  · obtain ⟨e, he, _⟩ := corruption_detected_partial cfg hc c m f hwf hcn hd hf
+    rw [he] at hok; cases hok
+
+/-- non-vacuity: three streams, the header of the third is damaged -/
+example : WF ([⟨30, [1, 2], false, false, .none⟩, ⟨14, [], false, false, .none⟩, ⟨40, [], false, false, .magic⟩] : CFile Nat) ∧
+    faulty ([⟨30, [1, 2], false, false, .none⟩, ⟨14, [], false, false, .none⟩, ⟨40, [], false, false, .magic⟩] : CFile Nat) = true :=
+  ⟨by decide, by decide⟩
+
+/-- The clause seed C09-6 breaks, for ALL inputs: bzip2 — from a file descriptor and from a memory buffer —
+    and gzip from a memory buffer: any number of complete valid streams followed by bytes that do not start
+    with a stream header (a damaged "BZh1".."BZh9" / 1f 8b of the 2nd, 3rd, … stream; trailing garbage) is an
+    ERROR, whatever the sizes and alignments — never the shorter file `pre`. -/
+theorem later_stream_bad_header_is_error (cfg : Cfg) (hc : CfgOk cfg) (c : Comp) (m : Mode) (pre : CFile α) (g : Stream α)
+    (hcm : (c = .bzip2) ∨ (c = .gzip ∧ m = .buf)) (hwf : WF (pre ++ [g])) (hg : g.bad = .magic) :
+    ∃ e, readAll cfg Fixes.all c m (pre ++ [g]) = .error e ∧ e.cls ≠ .fuel := by
+  apply corruption_detected_partial cfg hc c m (pre ++ [g]) hwf
+  · rcases hcm with h | h
+    · simp [h]
+    · simp [h.1]
+  · intro h1 h2
+    rcases hcm with h | h
+    · rw [h] at h1; cases h1
+    · rw [h.2] at h2; cases h2
+  · simp [faulty, hg]
+
+/-- the same for a later stream that HAS its header but is damaged further on (method / flags / level digit,
+    body, CRC, ISIZE, end-of-stream magic): all four compressed paths -/
+theorem later_stream_damaged_is_error (cfg : Cfg) (hc : CfgOk cfg) (c : Comp) (m : Mode) (pre : CFile α) (g : Stream α)
+    (hcn : c ≠ .none) (hwf : WF (pre ++ [g])) (hpre : faulty pre = false) (hg : g.bad = .data) :
+    ∃ e, readAll cfg Fixes.all c m (pre ++ [g]) = .error e ∧ e.cls ≠ .fuel := by
+  apply corruption_detected_partial cfg hc c m (pre ++ [g]) hwf hcn
+  · intro _ _
+    apply gzFdDomain_of_noMagic
+    have := noMagic_of_intact hpre
+    simp only [noMagic, List.all_append, List.all_cons, List.all_nil, Bool.and_true, Bool.and_eq_true] at this ⊢
+    exact ⟨this, by simp [hg]⟩
+  · simp [faulty, hg]
+
+/-- non-vacuity of both -/
+example : WF ([⟨30, [1, 2], false, false, .none⟩] ++ [(⟨40, [], false, false, .magic⟩ : Stream Nat)]) := by decide
+example : readAll cfg64 Fixes.all .bzip2 .fd ([⟨30, [1, 2], false, false, .none⟩] ++ [(⟨40, [], false, false, .magic⟩ : Stream Nat)])
+    = .error ⟨.bzip2, .read⟩ := by rfl
+example : readAll cfg64 Fixes.all .bzip2 .fd ([⟨5000, [1, 2], false, false, .none⟩] ++ [(⟨40, [], false, false, .magic⟩ : Stream Nat)])
+    = .error ⟨.bzip2, .read⟩ := by rfl
+
+/-- gzip from a file descriptor, damage in the FIRST member's magic: gzread copies the raw bytes verbatim
+    ("transparent" mode).  Before the `gzdirect()` check they were delivered as if they were the payload
+    (regression witness, finding `corruption-accepted:gzip-fd:magic-of-first-member`); today's code raises. -/
+def wN : CFile Nat := [⟨30, [31, 0, 8, 0], false, false, .magic⟩]
+theorem witness_gzip_fd_first_magic_before_fix :
+    readAll cfg64 { Fixes.all with gzDirect := false } .gzip .fd wN = .ok [31, 0, 8, 0] := by rfl
+theorem corruption_detected_refuted_before_gzdirect : ¬ CorruptionDetected { Fixes.all with gzDirect := false } := by
+  intro h
+  obtain ⟨e, he, _⟩ := h Nat cfg64 .gzip .fd wN cfg64_ok (by decide) (by decide) (by decide)
+  rw [witness_gzip_fd_first_magic_before_fix] at he; cases he
+theorem gzip_fd_first_magic_is_error (cfg : Cfg) (hc : CfgOk cfg) (s : Stream α) (hpos : 0 < s.csize) (hb : s.bad = .magic)
+    (ht : s.trunc = false) (hp : s.payload ≠ []) :
+    ∃ e, readAll cfg Fixes.all .gzip .fd [s] = .error e ∧ e.cls ≠ .fuel := by
+  apply corruption_detected_partial cfg hc .gzip .fd [s] (by simp [WF, wfB, truncOnlyLast, hpos, ht]) (by simp)
+  · intro _ _
+    have : s.payload.isEmpty = false := by
+      cases h : s.payload with
+      | nil => exact absurd h hp
+      | cons _ _ => rfl
+    simp [gzFdDomain, noMagic, this]
+  · simp [faulty, hb]
+
+/-- the witnesses of the two findings under today's code, and the buffer path on the same bytes -/
+theorem witnesses_magic_fixed :
+    readAll cfg64 Fixes.all .gzip .fd wN = .error ⟨.gzip, .read⟩ ∧
+    readAll cfg64 Fixes.all .gzip .buf wM = .error ⟨.gzip, .read⟩ ∧
+    readAll cfg64 Fixes.all .bzip2 .fd wM = .error ⟨.bzip2, .read⟩ ∧
+    readAll cfg64 Fixes.all .bzip2 .buf wM = .error ⟨.bzip2, .read⟩ := by
+  refine ⟨?_, ?_, ?_, ?_⟩ <;> rfl
 
 /-! ## offset_le_file_size -/
 
 /-- The offset reported after every `read()` never exceeds the size of the input (file or buffer):
-    today's code on every well-formed file … -/
-theorem offset_le_file_size_fixed (cfg : Cfg) (hc : CfgOk cfg) (c : Comp) (m : Mode) (f : CFile α) (hwf : WF f) :
-    ∀ o ∈ (readFile cfg Fixes.all c m f).offs, o ≤ inputSize c f :=
-  (run_fixed cfg hc c m f hwf).offs
-
-/-- … the code before the fixes: uncompressed and gzip-fd on every file, single-stream bzip2-fd … -/
+    the code before the fixes: uncompressed and gzip-fd on every file, single-stream bzip2-fd … -/
 theorem offset_le_file_size_current_partial (cfg : Cfg) (hc : CfgOk cfg) (f : CFile α) :
     (∀ m, ∀ o ∈ (readFile cfg Fixes.none .none m f).offs, o ≤ inputSize .none f) ∧
     (∀ o ∈ (readFile cfg Fixes.none .gzip .fd f).offs, o ≤ inputSize .gzip f) ∧
     (WF f → f.length = 1 → ∀ o ∈ (readFile cfg Fixes.none .bzip2 .fd f).offs, o ≤ inputSize .bzip2 f) :=
-  ⟨fun m => (run_none cfg hc Fixes.none m f).offs, (run_gzip_fd cfg hc Fixes.none f).offs,
+  ⟨fun m => (run_none cfg hc Fixes.none m f).offs, (run_gzip_fd_raw cfg hc Fixes.none f).offs,
    fun hwf h1 => (run_bzip2_fd cfg hc Fixes.none f hwf (Or.inr h1)).offs⟩
 
 /-- … and a decompressor that never calls set_offset (both buffer decompressors, any `Fixes`, any file)
@@ -402,11 +671,16 @@ theorem offset_le_file_size (cfg : Cfg) (hc : CfgOk cfg) (fx : Fixes) (c : Comp)
   cases c
   · exact (run_none cfg hc fx m f).offs
   · cases m
-    · exact (run_gzip_fd cfg hc fx f).offs
+    · exact (run_gzip_fd_raw cfg hc fx f).offs
     · exact offset_le_file_size_buffer cfg fx .gzip f (by simp)
   · cases m
     · exact offset_le_file_size_bzip2_fd cfg fx f
     · exact offset_le_file_size_buffer cfg fx .bzip2 f (by simp)
+
+/-- today's code on every file (instance of the general statement) -/
+theorem offset_le_file_size_fixed (cfg : Cfg) (hc : CfgOk cfg) (c : Comp) (m : Mode) (f : CFile α) :
+    ∀ o ∈ (readFile cfg Fixes.all c m f).offs, o ≤ inputSize c f :=
+  offset_le_file_size cfg hc Fixes.all c m f
 
 /-! ## own_output_roundtrip -/
 
@@ -421,7 +695,7 @@ theorem own_output_roundtrip (cfg : Cfg) (hc : CfgOk cfg) (c : Comp) (m : Mode) 
   · have := decompress_complete α cfg c m (compressorOutput writes csize) hc
       (by simp [WF, wfB, compressorOutput, truncOnlyLast, hpos]) (by simp [intact, compressorOutput])
     simpa [compressorOutput, refPayload] using this
-  · exact decompress_complete_single_stream_partial cfg hc c m ⟨csize, writes.flatten, false, false⟩ rfl hpos
+  · exact decompress_complete_single_stream_partial cfg hc c m ⟨csize, writes.flatten, false, false, .none⟩ rfl rfl hpos
 
 /-- non-vacuity -/
 example : readAll cfg64 Fixes.all .bzip2 .fd (compressorOutput [[1, 2], [], [3]] 40) = .ok [1, 2, 3] := by rfl
